@@ -407,7 +407,15 @@ def rule_r1(prog, res) -> None:
             continue
         done.add(fi)
         res.touch(fi)
-        t = _Taint(prog, res, fi, passthrough)
+        # helpers of the same module that receive the iterator (or what was built from it) are looked through: the
+        # analysis runs on the consumer with those calls expanded in place
+        from ..inline import inlined
+
+        try:
+            fi_an = inlined(prog, fi, keep=set(SOURCE_NAMES))
+        except Exception:  # noqa: BLE001 - an unusual helper shape: analyse the function as written
+            fi_an = fi
+        t = _Taint(prog, res, fi_an, passthrough)
         t.propagate()
         t.check_uses()
         total_sites += t.sites
